@@ -153,7 +153,8 @@ class Scope:
         scope = self
         while scope is not None:
             for name in scope.var_map:
-                defined_names.append(name)
+                if name is not None:  # declarations without a declarator
+                    defined_names.append(name)
             scope = scope.parent
         return defined_names
 
